@@ -6,7 +6,10 @@ package main
 
 import (
 	"errors"
+	"fmt"
 	"io"
+	"io/fs"
+	"strings"
 	"sync"
 	"sync/atomic"
 
@@ -44,10 +47,45 @@ type vfs struct {
 	void  *storage.MemoryFilesystem // where files created after the crash go: a private map nobody else sees
 	log   *fsLog
 	dead  *atomic.Bool
+
+	// one-shot storage faults armed by the harness for exactly one operation
+	failSave   atomic.Value  // "", "ck" (checkpoints file), "wal", "sst": the next Save of such a file returns an error
+	failDelete atomic.Bool   // the next Delete returns an error
+	fired      chan struct{} // receives one token when an armed fault has been delivered
+}
+
+var errInjected = errors.New("injected fault: storage unavailable")
+
+func kindOf(path string) string {
+	switch {
+	case strings.HasSuffix(path, "checkpoints"):
+		return "ck"
+	case strings.HasSuffix(path, ".wal"):
+		return "wal"
+	case strings.HasSuffix(path, ".sst"):
+		return "sst"
+	}
+	return ""
+}
+
+func (v *vfs) armSave(kind string) { v.failSave.Store(kind) }
+func (v *vfs) disarm() {
+	v.failSave.Store("")
+	v.failDelete.Store(false)
+	for {
+		select {
+		case <-v.fired:
+			continue
+		default:
+		}
+		return
+	}
 }
 
 func newVFS(root, grave, inner, void *storage.MemoryFilesystem, log *fsLog) *vfs {
-	return &vfs{root: root, grave: grave, inner: inner, void: void, log: log, dead: &atomic.Bool{}}
+	v := &vfs{root: root, grave: grave, inner: inner, void: void, log: log, dead: &atomic.Bool{}, fired: make(chan struct{}, 4)}
+	v.failSave.Store("")
+	return v
 }
 
 // bury keeps a copy of a file that is about to be deleted.
@@ -85,12 +123,18 @@ func (v *vfs) Copy(src, dst string) error {
 
 type vfile struct {
 	storage.File
-	v *vfs
+	v          *vfs
+	neverSaved bool // its Save failed: the file does not exist
 }
 
 func (f *vfile) Save() error {
 	if f.v.dead.Load() {
 		return nil
+	}
+	if k := kindOf(f.File.URI()); k != "" && f.v.failSave.CompareAndSwap(k, "") {
+		f.neverSaved = true
+		f.v.fired <- struct{}{}
+		return errInjected
 	}
 	err := f.File.Save()
 	if err == nil {
@@ -110,6 +154,14 @@ func (f *vfile) ReadAt(p []byte, off int64) (int, error) {
 func (f *vfile) Delete() error {
 	if f.v.dead.Load() {
 		return nil
+	}
+	if f.v.failDelete.CompareAndSwap(true, false) {
+		f.v.fired <- struct{}{}
+		return errInjected
+	}
+	if f.neverSaved {
+		// like removing a path that was never created on a real file system
+		return fmt.Errorf("remove %s: %w", f.File.URI(), fs.ErrNotExist)
 	}
 	f.v.bury(uriPath(f.File.URI()))
 	f.v.log.add("delete", uriPath(f.File.URI()))
